@@ -9,6 +9,11 @@ def sh(cmd, cwd="/verif"):
     return p.returncode, p.stdout + p.stderr
 assert sh(["git", "-C", "/repo", "status", "--short"])[1].strip() == "", "/repo not clean"
 out = {"harness_commit": sh(["git", "rev-parse", "--short", "HEAD"])[1].strip(), "results": {}}
+if want and os.path.exists("/verif/seeded/RERUN.json"):
+    # partial re-run: keep the other results
+    old = json.load(open("/verif/seeded/RERUN.json"))
+    out["results"] = old.get("results", {})
+    out["partial_update_of"] = old.get("harness_commit")
 missed = []
 for d in sorted(glob.glob("/verif/seeded/*/")):
     sid = os.path.basename(d.rstrip("/"))
@@ -29,6 +34,6 @@ for d in sorted(glob.glob("/verif/seeded/*/")):
             missed.append(sid)
     finally:
         sh(["git", "-C", "/repo", "checkout", "--", "."])
-out["missed"] = missed
+out["missed"] = sorted(k for k, v in out["results"].items() if not v.get("detected"))
 json.dump(out, open("/verif/seeded/RERUN.json", "w"), indent=1)
 print("done: %d changes, %d missed: %s" % (len(out["results"]), len(missed), missed))
